@@ -229,7 +229,12 @@ class Check:
         out = merged.to_json()
         out["wall_s"] = time.time() - t0
         Path(args.out).write_text(json.dumps(out))
-        return 0
+        # skip interpreter teardown: pyarrow's C++ threads occasionally abort()
+        # at exit ("terminate called without an active exception") after all
+        # work is done, which would make a finished worker look failed
+        sys.stdout.flush()
+        sys.stderr.flush()
+        os._exit(0)
 
     def _parent(self, args: Any, seed: int) -> int:
         t0 = time.time()
